@@ -49,6 +49,7 @@ def keydata(k):
 
 
 class C13(core.Property):
+  CASE_TIMEOUT_S = 60
   ID = 'C13'
   RULE = ('cases = (backend in-memory/SQLite, id set incl. trailing-zero / prefix ids, seed, cohort size, '
           'start round, history of sample()/set_round_num(r) calls) and streaming restarts (buffer, stream '
